@@ -288,7 +288,7 @@ def selection_blocks(b, prov, local, pred, depth=0, seen=None):
             if derives(prov.call(payload, blk), pred):
                 # `(if flag { a } else { b }).expect(..)`: the choice was made where the unwrapped temporary was assigned
                 a0 = payload.args[0].place if payload.args else None
-                if a0 is not None and a0.is_local() and re.search(r"(Option|Result)::(expect|unwrap|unwrap_unchecked)$", short(payload.callee() or "")):
+                if a0 is not None and a0.is_local() and re.search(r"(Option|Result)::(expect|unwrap|unwrap_unchecked|unwrap_or_else|unwrap_or|unwrap_or_default)$", short(payload.callee() or "")):
                     sub = selection_blocks(b, prov, a0.local, pred, depth + 1, seen)
                     out += sub or [blk]
                 else:
